@@ -636,7 +636,7 @@ std::string gen_param(Rng &r, const MsgGenOpts &o, int kind) {
         case 'b': return o.blocks ? gen_block(r) : gen_string(r, o);
         case 'm': return MNEMS[r.below(sizeof MNEMS / sizeof MNEMS[0])];
         case 'e': return gen_expr(r);
-        case 'n': return (r.chance(1, 2) ? gen_int(r) : gen_real(r)) + (r.chance(3, 4) ? SUFFIXES[r.below(sizeof SUFFIXES / sizeof SUFFIXES[0])] : "");
+        case 'n': return (r.chance(1, 2) ? std::to_string(r.range(-500, 500)) : gen_real(r)) + (r.chance(3, 4) ? SUFFIXES[r.below(sizeof SUFFIXES / sizeof SUFFIXES[0])] : "");
         case 'B': return r.chance(1, 2) ? (r.chance(1, 2) ? "ON" : "OFF") : (r.chance(1, 2) ? "1" : "0");
         case 'C': {
             static const char *ch[] = {"BUS", "IMM", "IMMediate", "EXT"};
